@@ -35,11 +35,11 @@ ASSUMPTIONS = ['front-end protocol read from app/src/components/proof/ProofArea.
                'visibility of earlier lines re-implemented from ItemID.can_depend_on; trivial pattern re-implemented on shadows']
 REQUIRED = {'quick': {'searches': 900, 'suggestions_applied': 2600, 'applied_ok': 2500, 'goal_adverts_checked': 1000,
                       'fact_adverts_checked': 800, 'solving_adverts_checked': 110, 'asked_for_parameters': 450,
-                      'gen_states': 200, 'lib_states': 150, 'searches_with_2_facts': 130,
+                      'gen_states': 200, 'gen_followup_states': 60, 'lib_states': 150, 'searches_with_2_facts': 130,
                       'advertised_goal_closed_by_existing_line': 60, 'ok:induction': 400, 'ok:apply_backward_step': 350},
             'thorough': {'searches': 12000, 'suggestions_applied': 40000, 'applied_ok': 30000, 'goal_adverts_checked': 15000,
                          'fact_adverts_checked': 8000, 'solving_adverts_checked': 1500, 'asked_for_parameters': 3000,
-                         'gen_states': 2500, 'lib_states': 2500, 'searches_with_2_facts': 1500,
+                         'gen_states': 2500, 'gen_followup_states': 1000, 'lib_states': 2500, 'searches_with_2_facts': 1500,
                          'advertised_goal_closed_by_existing_line': 600, 'ok:induction': 1500, 'ok:apply_backward_step': 3000}}
 SHARD_TIMEOUT = {'quick': 900, 'thorough': 7200}
 
@@ -50,8 +50,8 @@ TERM_PARAMS = ('s',)
 def shards(tier, seed):
     if tier == 'quick':
         return ([{'kind': 'lib', 'i': i, 'parts': 12, 'units': 14, 'searches': 200, 'per_thm': 8} for i in range(12)] +
-                [{'kind': 'gen', 'i': i, 'theories': ths, 'states': 70} for i, ths in
-                 enumerate([['logic', 'nat'], ['set', 'list'], ['logic', 'function', 'set'], ['nat', 'real']])])
+                [{'kind': 'gen', 'i': i, 'theories': ths, 'states': 56} for i, ths in
+                 enumerate([['logic', 'nat'], ['set', 'list'], ['logic', 'function', 'set'], ['nat', 'real']])])   # + follow-up states
     return ([{'kind': 'lib', 'i': i, 'parts': 32, 'units': 150, 'searches': 2500, 'per_thm': 24} for i in range(32)] +
             [{'kind': 'gen', 'i': i, 'theories': [GEN_THEORIES[i % len(GEN_THEORIES)]], 'states': 350} for i in range(12)])
 
@@ -233,6 +233,7 @@ def _iid(x):
 # ------------------------------------------------------------------ the judge
 class Stats:
     term_failures = []
+    ok_states = None     # when a list: (json-able step, resulting state) of every successful application (generated workload)
 
 
 def apply_once(state, step):
@@ -348,6 +349,8 @@ def judge_application(ctx, state, gid, r, supplied, invented, wit):
         ctx.case(key, nontrivial=True)
         return
     st = res
+    if Stats.ok_states is not None and len(Stats.ok_states) < 40:
+        Stats.ok_states.append(({k: v for k, v in step.items() if k not in ('_goal', '_fact', 'display')}, st))
     ctx.count('applied_ok')
     ctx.count('ok:' + mname)
     sample = None
@@ -804,7 +807,7 @@ def safe_str(t):
         return S.tm_str(S.tm_shadow(t))
 
 
-def explore_gen_state(ctx, state, wit, nfacts, rng):
+def explore_gen_state(ctx, state, wit, nfacts, rng, follow=2):
     gid = (nfacts,)
     sels = [[]] + [[str(i)] for i in range(nfacts)]
     pairs = [[str(i), str(j)] for i in range(nfacts) for j in range(i + 1, nfacts)]
@@ -812,10 +815,26 @@ def explore_gen_state(ctx, state, wit, nfacts, rng):
     sels += pairs[:2]
     if nfacts >= 3 and rng.random() < 0.3:
         sels.append([str(i) for i in rng.sample(range(nfacts), 3)])
+    Stats.ok_states = []
     for prevs in sels:
         if rng.random() < 0.5:
             prevs = list(reversed(prevs))
         search_and_judge(ctx, state, gid, prevs, wit)
+    # generated editing sequences: continue from the result of a successful suggestion
+    path = []
+    for depth in range(follow):
+        cands = [(stp, st) for stp, st in Stats.ok_states if st.prf.get_sorrys()]
+        if not cands or rng.random() < 0.35:
+            break
+        stp, st = rng.choice(cands)
+        path = path + [stp]
+        w2 = dict(wit, path=path, where=wit['where'] + ' then ' + ' then '.join(
+            '%s %s on %s%s' % (p['method_name'], p.get('theorem', ''), p['goal_id'], (' using ' + ','.join(p['fact_ids'])) if p.get('fact_ids') else '')
+            for p in path), state_key=(wit['state_key'], json.dumps(path, sort_keys=True, default=str)))
+        ctx.count('gen_followup_states')
+        Stats.ok_states = []
+        explore_state(ctx, st, w2, 5, rng, max_goals=2, n_single=2, n_pair=1)
+    Stats.ok_states = None
 
 
 # ------------------------------------------------------------------ entry
@@ -835,8 +854,11 @@ def run_replay(ctx, w):
     vars = {k: S.to_repo_type(S.from_json(v)) for k, v in w['vars'].items()}
     context.set_context(None, vars=vars)
     state = server.parse_init_state(S.to_repo_term(S.from_json(w['prop'])))
-    wit = {k: w[k] for k in ('kind', 'theory', 'desc', 'where', 'vars', 'prop') if k in w}
-    wit['where'] = w.get('where', '').split(' goal ')[0]
+    from server import method
+    for stp in w.get('path', []):
+        method.apply_method(state, dict(stp))
+    wit = {k: w[k] for k in ('kind', 'theory', 'desc', 'where', 'vars', 'prop', 'path') if k in w}
+    wit['where'] = w.get('where', '').rsplit(' goal ', 1)[0]
     wit['state_key'] = ('gen', 'replay')
     search_and_judge(ctx, state, tuple(int(x) for x in w['goal_id'].split('.')), w['fact_ids'], wit,
                      only=w['suggestion'], forced=w.get('supplied'))
